@@ -160,6 +160,10 @@ class ProfmodExtractor:
                         module_dict_list.append(module_dict)
                         modname_list.append(modname)
             elif isinstance(node, ast.ImportFrom):
+                if node.module is None:
+                    # `from . import x` in a script: nothing to match
+                    # against the (absolute) names to profile
+                    continue
                 for name in node.names:
                     if name.name == '*':
                         # `from foo import *` binds no single name
